@@ -478,3 +478,25 @@ Proof.
   rewrite !N. destruct H; destruct (len (name_octets (mp_src q)) >? 255) eqn:E1; try lia; try reflexivity.
   cbn [bind]. destruct (len (name_octets (mp_dst q)) >? 255) eqn:E2; [reflexivity|lia].
 Qed.
+
+(* ================= non-vacuity ================= *)
+Definition ex_md : MdParams :=
+  {| mp_closure := 1; mp_cstype := 3; mp_fsize := 4294967296; mp_src := Some [97; 195; 164]; mp_dst := None |}.
+Definition ex_opts : option (list tlv) :=
+  Some [{| tlv_type := 2; tlv_value := [7; 8] |}; {| tlv_type := 5; tlv_value := [] |}].
+Example md_valid_example : md_valid (ex_conf 1 1) ex_md ex_opts.
+Proof.
+  unfold md_valid. split; [apply ex_conf_valid; right; reflexivity|].
+  split; [right; reflexivity|]. split; [unfold cstype_valid, ex_md; cbn [mp_cstype]; lia|].
+  split; [vm_compute; split; congruence|].
+  split; [unfold name_valid, wf_bytes; split; [vm_compute; congruence|repeat constructor; lia]|].
+  split; [unfold name_valid, wf_bytes; split; [vm_compute; congruence|constructor]|].
+  split; [|vm_compute; congruence].
+  unfold ex_opts, opts_of, opt_valid, wf_bytes. cbn [tlv_type tlv_value].
+  repeat constructor; try (vm_compute; congruence); lia.
+Qed.
+Example md_layout_example :
+  md_layout (ex_conf 0 1) ex_md ex_opts =
+  [37; 0; 21; 147; 1; 2; 255; 255; 255; 255; 255; 255; 7; 67; 0; 0; 0; 1; 0; 0; 0; 0;
+   3; 97; 195; 164; 0; 2; 2; 7; 8; 5; 0].
+Proof. vm_compute. reflexivity. Qed.
